@@ -5,7 +5,7 @@ Extraction Language OCaml.
 Extraction "model.ml" anchor
   init_cursor read read_all getopt_ref
   split_model split_ref split_seen in_class
-  launch_argv launch_cmdline launch_list
+  launch_argv launch_cmdline launch_list start_argv start_cmdline
   launch_ref_cmdline launch_ref_argv launch_ref_argv0 launch_ref_list
   join_words join_words_bs
   get_env_var set_env_var get_env_vars ref_get ref_set ref_vars em_put split_eq
